@@ -13,5 +13,6 @@ CONSTANTS
   JFN = TRUE
   CANON = TRUE
   Groups = TRUE
+  CheckUpdates = TRUE
 SYMMETRY Symm
 INVARIANT NoStale
